@@ -80,12 +80,16 @@ fn main() {
                 }
             };
             let other = if checks::two_profiles(&ctx.id) { util::run_other_profile(&ctx) } else { None };
-            let code = util::finish(&ctx, rep, t0.elapsed().as_secs_f64(), other);
+            let envs = util::run_environments(&ctx);
+            let code = util::finish(&ctx, rep, t0.elapsed().as_secs_f64(), other, envs);
             std::process::exit(code)
         }
         "replay" => {
             let id = pos.first().cloned().unwrap_or_else(|| usage());
             let file = pos.get(1).cloned().unwrap_or_else(|| usage());
+            if let Some(code) = util::replay_in_recorded_environment(&file) {
+                std::process::exit(code)
+            }
             std::process::exit(checks::replay(&id, &file))
         }
         "c03-worker" => {
